@@ -105,9 +105,9 @@ REPL_DICT = (("k2", 2), ("k0", 0), ("k6", 6))
 # the abstract view (oracle).  Objects are universe indices.
 # ---------------------------------------------------------------------------------------
 class View:
-    __slots__ = ("style", "objs", "names", "nkey", "own", "auto")
+    __slots__ = ("style", "objs", "names", "nkey", "own", "auto", "akind")
 
-    def __init__(self, style, stale=False, auto=False):
+    def __init__(self, style, stale=False, auto=False, akind=None):
         self.style = style
         self.objs = [0, 1, 2]
         self.names = [(k, i) for i, k in enumerate(INIT_KEYS)] if style == "dict" else []
@@ -116,11 +116,15 @@ class View:
         # what went through it).  NOT part of the view; only decides which operations are enumerated.
         self.own = [0, 1, 2] if stale else None
         self.auto = auto
+        # proxy=auto: check_on_set=False and value assignments naming unknown objects are part of the
+        # alphabet ("Selector": a single value, "ListSelector": lists -- unknown once / twice / mixed)
+        self.akind = akind
 
     def copy(self):
         v = View.__new__(View)
         v.style, v.objs, v.names, v.nkey = self.style, list(self.objs), list(self.names), self.nkey
         v.own, v.auto = (None if self.own is None else list(self.own)), self.auto
+        v.akind = self.akind
         return v
 
     def snapshot(self):
@@ -158,6 +162,11 @@ class View:
             return (False, None)
         if kind == "autoadd":
             self.objs.append(op[1])
+            return (False, None)
+        if kind == "autolist":                # assigned value names these objects, in this order:
+            for o in op[1]:                   # each one not yet known becomes known ONCE, at the end
+                if o not in self.objs:
+                    self.objs.append(o)
             return (False, None)
         if kind == "setidx":
             _, i, o = op
@@ -270,10 +279,31 @@ class View:
         return False                              # wholesale replacement is an assignment, not a handle operation
 
     # -- which operations are enumerated in this state ---------------------------------
-    def ops(self):
+    def ops(self, extra=False):
+        """``extra``: also the additional call forms of ``update`` (keyword items) -- enumerated only as the
+        LAST operation of a history and (dedicated tasks) as the FIRST one, to keep the product small."""
         if self.own is not None:
             return self._ops_stale()
-        return self._ops_plain()
+        return self._ops_plain() + (self.extra_ops() if extra else [])
+
+    def extra_ops(self):
+        """``objects.update`` called with keyword items: several of them, replacing an existing key, and
+        together with a non-empty mapping / pair list ("<form>+kw": first pair positionally, the others as
+        keywords).  Dict-declared objects only."""
+        if self.style != "dict":
+            return []
+        c0, c1 = [u for u in range(NUNIV) if u not in self.objs][:2]
+        keys = [k for k, _ in self.names]
+        fk, fk2 = "n%d" % self.nkey, "n%d" % (self.nkey + 1)
+        out = [("update", "kw", ((fk, c0), (fk2, c1)))]
+        if keys:
+            out.append(("update", "kw", ((keys[0], c0), (fk, c1))))
+            out.append(("update", "dict+kw", ((keys[0], c0), (fk, c1))))
+        out.append(("update", "dict+kw", ((fk, c0), (fk2, c1))))
+        out.append(("update", "pairs+kw", ((fk, c0), (fk2, c1))))
+        if keys:
+            out.append(("update", "pairs+kw", ((fk, c0), (keys[-1], c1))))
+        return out
 
     def _ops_stale(self):
         plain = self._ops_plain()
@@ -362,6 +392,25 @@ class View:
             out.append(("replace_dict", ()))
             out.append(("replace_dict", REPL_DICT))
             out.append(("replace_list", REPL_LIST))
+        if self.akind is not None and self.style == "list":
+            out.extend(self.auto_ops())
+        return out
+
+    def auto_ops(self):
+        """value assignments on a check_on_set=False Selector (list-declared: the name an auto-added object
+        gets in a named Selector is not settled).  FIRST in the list: the ones naming unknown objects."""
+        c0, c1 = [u for u in range(NUNIV) if u not in self.objs][:2]
+        known = list(self.objs)
+        if self.akind == "Selector":
+            out = [("autolist", (c0,))]
+            if known:
+                out.append(("autolist", (known[0],)))
+            return out
+        out = [("autolist", (c0,)), ("autolist", (c0, c0)), ("autolist", (c0, c1)), ("autolist", (c0, c1, c0))]
+        if known:
+            out += [("autolist", (known[0], c0)), ("autolist", (c0, known[-1])),
+                    ("autolist", (c0, known[0], c0)), ("autolist", (known[-1], known[0]))]
+        out.append(("autolist", ()))
         return out
 
     def after(self, op):
@@ -381,7 +430,8 @@ METHOD = {"setidx": "ListProxy.__setitem__", "setkey": "ListProxy.__setitem__",
           "popidx": "ListProxy.pop", "pop": "ListProxy.pop", "popkey": "ListProxy.pop",
           "remove": "ListProxy.remove", "clear": "ListProxy.clear", "update": "ListProxy.update",
           "replace_list": "Selector.objects.setter", "replace_dict": "Selector.objects.setter",
-          "init": "Selector.__init__", "take": "Selector.objects.getter", "autoadd": "Selector._validate"}
+          "init": "Selector.__init__", "take": "Selector.objects.getter", "autoadd": "Selector._validate",
+          "autolist": "Selector._validate"}
 
 
 def base_op(op):
@@ -398,11 +448,13 @@ def is_stale_cfg(cfg):
 
 
 def new_view(cfg):
-    return View(cfg[1], stale=is_stale_cfg(cfg), auto=cfg[3] == "stale-auto")
+    return View(cfg[1], stale=is_stale_cfg(cfg), auto=cfg[3] == "stale-auto",
+                akind=cfg[0] if cfg[3] == "auto" else None)
 
 
 OPNAME = {"popidx": "pop(int)", "pop": "pop()", "popkey": "pop(key)", "setidx": "[int]=", "setkey": "[key]=",
-          "replace_list": "objects=list", "replace_dict": "objects=dict", "init": "declare"}
+          "replace_list": "objects=list", "replace_dict": "objects=dict", "init": "declare",
+          "autolist": "value="}
 
 
 def op_text(op):
@@ -415,6 +467,8 @@ def op_text(op):
         return "H=objects"
     if k == "autoadd":
         return "value=%s" % u(op[1])
+    if k == "autolist":
+        return "value=<%s>" % ",".join(u(o) for o in op[1])
     if k == "setidx":
         return "[%d]=%s" % (op[1], u(op[2]))
     if k == "append":
@@ -454,6 +508,8 @@ def op_source(op, target):
         return "H = P.objects"
     if k == "autoadd":
         return "s.x = [%s] if IS_LIST else %s" % (u(op[1]), u(op[1]))
+    if k == "autolist":
+        return "(S if CLASS_LEVEL else s).x = [%s] if IS_LIST else %s" % (", ".join(u(o) for o in op[1]), u(op[1][0]) if op[1] else "None")
     if k == "setidx":
         return "%s[%d] = %s" % (target, op[1], u(op[2]))
     if k == "append":
@@ -480,7 +536,12 @@ def op_source(op, target):
             return "%s.update({%s})" % (target, ", ".join("%r: %s" % (kk, u(o)) for kk, o in pairs))
         if form == "pairs":
             return "%s.update([%s])" % (target, ", ".join("(%r, %s)" % (kk, u(o)) for kk, o in pairs))
-        return "%s.update({}, %s)" % (target, ", ".join("%s=%s" % (kk, u(o)) for kk, o in pairs))
+        kws = ", ".join("%s=%s" % (kk, u(o)) for kk, o in (pairs if form == "kw" else pairs[1:]))
+        if form == "dict+kw":
+            return "%s.update({%r: %s}, %s)" % (target, pairs[0][0], u(pairs[0][1]), kws)
+        if form == "pairs+kw":
+            return "%s.update([(%r, %s)], %s)" % (target, pairs[0][0], u(pairs[0][1]), kws)
+        return "%s.update({}, %s)" % (target, kws)
     if k == "replace_list":
         return "P.objects = [%s]" % ", ".join(u(o) for o in op[1])
     if k == "replace_dict":
@@ -511,7 +572,8 @@ class Real:
         else:
             init = {INIT_KEYS[0]: U[0], INIT_KEYS[1]: U[1], INIT_KEYS[2]: U[2]}
 
-        kw = {"check_on_set": False} if proxy == "stale-auto" else {}
+        kw = {"check_on_set": False} if proxy in ("stale-auto", "auto") else {}
+        self.auto = proxy == "auto"
 
         class S(param.Parameterized):
             x = ptype(objects=init, **kw)
@@ -541,6 +603,12 @@ class Real:
             return None
         if k == "autoadd":
             self.inst.x = [U[op[1]]] if self.is_list else U[op[1]]
+            return None
+        if k == "autolist":
+            # class-level Parameter: the class attribute is assigned (an instance assignment is validated by,
+            # and admits to, the instance's own copy of the Parameter)
+            tgt = self.cls if self.cfg[2] == "class" else self.inst
+            tgt.x = [U[o] for o in op[1]] if self.is_list else U[op[1][0]]
             return None
         if k == "S":
             return self._do(op[1], self.stale)
@@ -585,6 +653,10 @@ class Real:
                 t.update({kk: U[o] for kk, o in pairs})
             elif form == "pairs":
                 t.update([(kk, U[o]) for kk, o in pairs])
+            elif form == "dict+kw":
+                t.update({pairs[0][0]: U[pairs[0][1]]}, **{kk: U[o] for kk, o in pairs[1:]})
+            elif form == "pairs+kw":
+                t.update([(pairs[0][0], U[pairs[0][1]])], **{kk: U[o] for kk, o in pairs[1:]})
             else:
                 t.update({}, **{kk: U[o] for kk, o in pairs})
         else:
@@ -598,10 +670,17 @@ class Real:
             self.inst = self.cls()
 
     def accepts(self, value):
+        # proxy=auto (check_on_set=False): a probe must not itself admit its value -- membership checking
+        # is switched on for the duration of the probe ("membership ... checked against the current objects")
+        if self.auto:
+            self.P.check_on_set = True
         try:
             self.inst.x = value
         except Exception:
             return False
+        finally:
+            if self.auto:
+                self.P.check_on_set = False
         return True
 
 
@@ -755,7 +834,7 @@ def run_history(cfg, ops, U=None):
         effective = view.snapshot() != before
         d1, d2 = len(real.log_changed) - n1, len(real.log_all) - n2
         ck("C18/%s/watchers" % meth)
-        if op[0] == "autoadd":
+        if op[0] in ("autoadd", "autolist"):
             pass                                   # (whether an auto-adding assignment notifies is not settled)
         elif effective:
             if d1 != 1 or d2 != 1:
@@ -791,6 +870,8 @@ def _objs_of(op):
     k = op[0]
     if k == "autoadd":
         return [op[1]]
+    if k == "autolist":
+        return list(op[1])
     if k in ("setidx", "insert", "setkey"):
         return [op[2]]
     if k in ("append", "remove"):
@@ -812,9 +893,12 @@ def enum_histories(cfg, depth, first=None):
         if d == 0:
             yield tuple(acc)
             return
-        ops = view.ops()
-        if first is not None and d == depth:
-            ops = ops[first:first + 1]
+        if isinstance(first, tuple) and d == depth:          # ("extra", i): the i-th additional call form first
+            ops = view.extra_ops()[first[1]:first[1] + 1]
+        else:
+            ops = view.ops(extra=(d == 1))
+            if first is not None and d == depth:
+                ops = ops[first:first + 1]
         for op in ops:
             v2 = view.copy()
             v2.apply(op)
@@ -844,7 +928,7 @@ def sample_histories(cfg, depth, count, seed):
             yield h
 
 
-CFG_RANK = {"Selector": 0, "ListSelector": 1, "inst": 0, "class": 1, "fresh": 0, "held": 1, "stale": 2, "stale-auto": 3,
+CFG_RANK = {"Selector": 0, "ListSelector": 1, "inst": 0, "class": 1, "fresh": 0, "held": 1, "stale": 2, "stale-auto": 3, "auto": 4,
             "int": 0, "str": 1, "obj": 2, "final": 0, "interleaved": 1, "noprobe": 2, "list": 0, "dict": 1}
 
 
@@ -860,11 +944,13 @@ def _worker(task):
     U = make_universe(family)
     ncases, counts, cands = 0, {}, {}
     samples = []
-    if isinstance(first, tuple):                   # ("sample", count, seed): seeded histories instead of all
+    if isinstance(first, tuple) and first[0] == "sample":   # ("sample", count, seed): seeded histories instead of all
         source = sample_histories(cfg, depth, first[1], first[2])
         first = 10 ** 6
     else:
         source = enum_histories(cfg, depth, first)
+        if isinstance(first, tuple):               # ("extra", i)
+            first = 500 + first[1]
     for hist in source:
         ncases += 1
         findings, c = run_history(cfg, hist, U)
@@ -916,7 +1002,7 @@ def make_replay(cfg, hist, aspect, clause, witness):
             lines.append("H = P.objects")
         if mode == "interleaved" and not last:
             lines.append("probe([%s])" % ", ".join(str(u) for u in sorted(seen)))
-    hdr = REPLAY_HEADER.format(prop=PROP, name="replay_c18.py", clause=clause, witness=witness)
+    hdr = REPLAY_HEADER.format(prop=PROP, name="replay_c18.py", clause=clause, witness=witness).replace("sys.path.insert(0, '/repo')", "import os\nsys.path.insert(0, os.environ.get('PYVC_REPO', '/repo'))      # (PYVC_REPO: a scratch copy of the library under test)")
     init = ("[U[0], U[1], U[2]]" if decl == "list"
             else "{'k0': U[0], 'k1': U[1], 'k2': U[2]}")
     src = hdr + "import logging, warnings\nimport param\nwarnings.simplefilter('ignore')\n"
@@ -924,15 +1010,17 @@ def make_replay(cfg, hist, aspect, clause, witness):
     src += FAMILY_SRC[family]
     head, src = src, ""
     src += "class S(param.Parameterized):\n    x = param.%s(objects=%s%s)\n" % (
-        kind, init, ", check_on_set=False" if proxy == "stale-auto" else "")
+        kind, init, ", check_on_set=False" if proxy in ("stale-auto", "auto") else "")
     src += "s = S()\nP = %s\n" % ("s.param.x" if level == "inst" else "S.param.x")
     src += "log_changed, log_all = [], []\n"
     who = "s" if level == "inst" else "S"
     src += "%s.param.watch(log_changed.append, 'x', what='objects')\n" % who
     src += "%s.param.watch(log_all.append, 'x', what='objects', onlychanged=False)\n" % who
     src += "IS_LIST = %r\nCLASS_LEVEL = %r\n" % (kind == "ListSelector", level == "class")
-    src += ("def accepts(v):\n    try:\n        s.x = [v] if IS_LIST else v\n    except Exception:\n"
-            "        return False\n    return True\n"
+    src += "AUTO = %r      # check_on_set=False: membership checking is switched on only while probing\n" % (proxy == "auto")
+    src += ("def accepts(v):\n    if AUTO: P.check_on_set = True\n"
+            "    try:\n        s.x = [v] if IS_LIST else v\n    except Exception:\n"
+            "        return False\n    finally:\n        if AUTO: P.check_on_set = False\n    return True\n"
             "def probe(idx):\n    global s\n    if CLASS_LEVEL: s = S()\n    return [accepts(U[i]) for i in idx]\n")
     if proxy == "held":
         src += "H = P.objects\n"
@@ -994,6 +1082,7 @@ def make_replay(cfg, hist, aspect, clause, witness):
         src += "    want = any(U[i] is o for o in exp_objs)\n"
         src += "    if accepts(U[i]) != want:\n"
         src += "        problems.append('assignment of U[%d]=%r: member=%s but %s' % (i, U[i], want, 'rejected' if want else 'accepted'))\n"
+        src += "if AUTO: P.check_on_set = True\n"
         src += "if IS_LIST and len(exp_objs) >= 2:\n"
         src += "    try:\n        s.x = [exp_objs[-1], exp_objs[0]]\n    except Exception:\n        problems.append('two members rejected')\n"
         src += "    try:\n        s.x = [exp_objs[0], U[%d]]\n        problems.append('[member, non-member] accepted')\n    except Exception:\n        pass\n" % NEVER
@@ -1048,6 +1137,29 @@ def stale_plan(tier, seed):
     return out
 
 
+def auto_plan(tier, seed):
+    """list of (cfg, depth, first): check_on_set=False, list-declared, fresh handles; the alphabet is the plain
+    one plus value assignments naming unknown objects (ListSelector: unknown once / the SAME unknown twice /
+    two unknowns / known+unknown mixes / only known / empty list; Selector: unknown / known value).
+    first None = all histories of that depth; else only those STARTING with that assignment."""
+    out = []
+    dall, dfirst, dvar = AUTO_DEPTHS[tier]
+    for kind in ("Selector", "ListSelector"):
+        cfg = (kind, "list", "inst", "auto", "int", "interleaved")
+        ops0 = new_view(cfg).ops()
+        out.append((cfg, dall, None))
+        for f, op in enumerate(ops0):
+            if op[0] == "autolist" and any(o > 2 for o in op[1]):      # names an unknown object
+                out.append((cfg, dfirst, f))
+        for var in ((kind, "list", "class", "auto", "int", "interleaved"), (kind, "list", "inst", "auto", "obj", "final"),
+                    (kind, "list", "inst", "auto", "str", "interleaved")):
+            for f, op in enumerate(new_view(var).ops()):
+                if op[0] == "autolist" and any(o > 2 for o in op[1]):
+                    out.append((var, dvar, f))
+    return out
+
+
+AUTO_DEPTHS = {"quick": (2, 3, 2), "thorough": (3, 4, 3)}
 DEPTHS = {"quick": (3, 2, 1), "thorough": (4, 3, 2)}
 STALE_DEPTHS = {"quick": (2, ((3, 600), (4, 200))), "thorough": (3, ((4, 9000),))}     # (depth <= 4: the universe has 12 objects)
 
@@ -1075,15 +1187,34 @@ def run(tier, seed):
                "check_on_set=False where value assignments auto-add, 2 class-level ones with named objects): every "
                "operation either through a fresh handle (one representative per mutator, the wholesale replacements, "
                "auto-adding assignment, re-taking H) or through H (every mutator variant whose meaning does not depend "
-               "on the handle's own content): all histories of %d operations (%d at class level)%s"
-               % (dcore, dnear, dwide, STALE_DEPTHS[tier][0], STALE_DEPTHS[tier][0] - 1,
-                  "".join(" + %d seeded of %d operations" % (c, dd) for dd, c in STALE_DEPTHS[tier][1]))))
+               "on the handle's own content): all histories of %d operations (%d at class level)%s; "
+               "UPDATE CALL FORMS: on dict-declared objects 6 further forms of objects.update (two keyword items, a "
+               "keyword replacing an existing key, mapping+keywords, pairs+keywords) as the LAST operation of every "
+               "history above and as the FIRST operation of all 2-operation histories; "
+               "CHECK_ON_SET=FALSE: {Selector,ListSelector} list-declared, fresh handles, alphabet = the plain one + "
+               "value assignments naming unknown objects (ListSelector: <u>, <u,u>, <u,v>, <u,v,u>, <known,u>, "
+               "<u,known>, <u,known,u>, <known,known>, <>; Selector: u, known), probes made with check_on_set switched "
+               "on for the probe: all histories of %d operations, all histories of %d operations starting with such an "
+               "assignment, and of %d operations for the class-level / named-object / str variants"
+               % ((dcore, dnear, dwide, STALE_DEPTHS[tier][0], STALE_DEPTHS[tier][0] - 1,
+                   "".join(" + %d seeded of %d operations" % (c, dd) for dd, c in STALE_DEPTHS[tier][1]))
+                  + AUTO_DEPTHS[tier])))
     _quiet()
     tasks = []
     for cfg, depth in pl:
         nfirst = len(new_view(cfg).ops())
         for f in range(nfirst):
             tasks.append((cfg, depth, f))
+    for cfg, depth in pl:                          # the additional call forms of update as FIRST operation
+        if cfg[1] == "dict" and depth >= 2:
+            for i in range(len(new_view(cfg).extra_ops())):
+                tasks.append((cfg, 2, ("extra", i)))
+    for cfg, depth, first in auto_plan(tier, seed):
+        if first is None:
+            for f in range(len(new_view(cfg).ops())):
+                tasks.append((cfg, depth, f))
+        else:
+            tasks.append((cfg, depth, first))
     for cfg, depth, sample in stale_plan(tier, seed):
         if sample is None:
             for f in range(len(new_view(cfg).ops())):
@@ -1121,6 +1252,8 @@ def run(tier, seed):
         B.violation(clause=clause, witness=witness, detail=" | ".join(details),
                     replay=make_replay(cfg, hist, aspect, clause, witness))
     B.note("style-inconsistent operations (append/insert/extend/[i]= on dict-declared objects, key operations on "
-           "list-declared objects), duplicate objects, check_on_set=False and failing operations (pop from empty, "
-           "missing key) are outside the statement's quantifier and are not enumerated")
+           "list-declared objects), duplicate objects, check_on_set=False on dict-declared objects (the name of an "
+           "auto-added object is not settled), objects.update(**kw) without a positional argument (not in ListProxy's "
+           "signature) and failing operations (pop from empty, missing key) are outside the statement's quantifier "
+           "and are not enumerated")
     return B.result()
